@@ -97,8 +97,12 @@ def main():
             if want < 1e-24:
                 # exactly (or essentially) zero estimate, e.g. the standard deviation of a coordinate that is observed
                 # noise-free: the implementation returns rounding noise (a huge or infinite error_power)
+                # The comparison is made on the ABSOLUTE error estimate (norm x tolerance): below 1e-12 x the size of the state
+                # it is float64 rounding noise of the factorisations (the norm itself is that noise divided by a tolerance as
+                # small as 1e-10, so it need not be small).
                 got = 0.0 if math.isinf(power) else (power ** (-2 * rate) if power > 0 else float("nan"))
-                ok = got <= 1e-18
+                usize = max([1.0] + [abs(float(x)) for row in c["tcoeffs"] for x in (row if isinstance(row, (list, tuple)) else [row])])
+                ok = got <= 1e-18 or math.sqrt(got) * (e["atol"] + e["rtol"] * usize) <= 1e-12 * usize
             else:
                 got = power ** (-2 * rate) if power > 0 else float("nan")
                 ok = abs(got - want) <= RTOL * rate * abs(want)
